@@ -81,6 +81,7 @@ class SnTracer:
         self.cms_added = []
         self.cbs = {'P': [], 'Q': []}
         self.count = {'P': 0, 'Q': 0}
+        self.kept = []
         self.tcount = 0          # periodic measurements begun (entries ever appended to the time series)
         self.pcalls, self.qcalls = [], []
         self.psense_times = 0.0
@@ -117,6 +118,7 @@ class SnTracer:
         if 'time' in which.data:
             ok = ok and len(which.data['time']) == min(self.tcount, which._data_capacity)
         ent = [cid, bool(sensor is which and ok), self.t(time), _val(copy.deepcopy(list(data)))]
+        self.kept.append((data, copy.deepcopy(list(data))))       # a callback may keep the list it was given
         (self.pcalls if name == 'P' else self.qcalls).append(ent)
 
     def make_cb(self, s, cid):
@@ -145,7 +147,8 @@ class SnTracer:
         Q['n'] = self.cfg['n']
         Q['nfin'] = self.nfin
         Q['cnt'] = int(self.Q._counter)
-        return {'now': self.t(env.now), 'started': self.P.env is not None, 'grid': self.grid,
+        keptok = all(list(ref) == cp for ref, cp in self.kept[-40:])
+        return {'now': self.t(env.now), 'started': self.P.env is not None, 'grid': self.grid, 'keptok': keptok,
                 'X': {'x': self.x.x, 'lst': list(self.x.lst)}, 'P': P, 'Q': Q, 'cms': list(self.cms_added)}
 
     def log(self, ev):
